@@ -175,6 +175,19 @@ Section SZ.
     apply fresh_covar_lz in Ha. pose proof (Hw _ _ _ _ Hs (cok_var _ _ _)) as Hi. cbn [cz_term] in *. lia.
   Qed.
 
+  (* the repaired placement of a continuation under binders (fix <commitcap>): < mu a. w(a) | cont > costs 3
+     more nodes than w(a), a being 1 node *)
+  Lemma sz_guard : forall binders (w : cterm -> M cstmt) lty X,
+    (forall cont st s st', w cont st = Ok (s, st') -> cok cont -> zs s + lz st' + 2 + 3 <= lz st + X + zt cont) ->
+    forall cont st s st', guard_capture false binders w lty cont st = Ok (s, st') -> cok cont ->
+      zs s + lz st' + 2 <= lz st + X + zt cont.
+  Proof.
+    intros binders w lty X Hw cont st s st' H Hc. apply guard_capture_inv in H.
+    destruct H as [[_ H]|[_ [ty0 [a [sta [s0 [_ [Ha [_ [H ->]]]]]]]]]].
+    - pose proof (Hw _ _ _ _ H Hc). lia.
+    - apply fresh_covar_lz in Ha. pose proof (Hw _ _ _ _ H (cok_var _ _ _)) as Hi. cbn [cz_stmt cz_term] in *. lia.
+  Qed.
+
   Lemma sz_args : forall args, Forall szc args ->
     forall st l st', subst_with (fun y => cmp' y) args st = Ok (l, st') -> incl (flat_map occ_arg args) U ->
     cz_args k l + lz st' <= lz st + PL args.
@@ -302,8 +315,9 @@ Section SZ.
     - (* FLet *)
       destruct IHt1 as [W1 C1], IHt2 as [W2 _].
       assert (HW : szw (FLet v vty t1 t2 ty)).
-      { intros cont st s0 st' H0 Hc Hi. rewrite wc_unfold in H0.
-        cbn [tocc] in Hi. apply incl_app_inv in Hi. destruct Hi as [Hi1 Hi2]. rewrite P_let. pose proof Q_eq.
+      { intros cont st s0 st' H0 Hc Hi. rewrite wc_unfold in H0. revert cont st s0 st' H0 Hc. apply sz_guard.
+        intros cont st s0 st' H0 Hc.
+        cbn [tocc] in Hi. apply incl_app_inv in Hi. destruct Hi as [Hi1 Hi2]. rewrite P_let. pose proof Q_eq. pose proof L_ge.
         assert (Hk : forall body st1, wc' t2 cont st = Ok (body, st1) -> cok (CMu CCns (new_id v) body (compile_ty vty))).
         { intros body st1 Hbody. apply (cok_sub _ cont); [reflexivity | exact Hc|].
           intros bb Hb. apply fvt_mu_iff in Hb. destruct Hb as [Hb _].
@@ -364,10 +378,11 @@ Section SZ.
       assert (HB : Forall (fun c => szw (clause_body c)) cls).
       { eapply Forall_impl; [|exact H]. intros a [Wa _]. exact Wa. }
       assert (HW : szw (FCase t targs cls ty)).
-      { intros cont st s0 st' H0 Hc Hi. rewrite wc_unfold in H0. apply wc_case_inv in H0.
+      { intros cont st s0 st' H0 Hc Hi. rewrite wc_unfold in H0. revert cont st s0 st' H0 Hc. apply sz_guard.
+        intros cont st s0 st' H0 Hc. apply wc_case_inv in H0.
         destruct H0 as [cont1 [st0 [cls' [st1 [sty0 [Hsh [Hcls [Esty Hscrut]]]]]]]].
         cbn [tocc] in Hi. apply incl_app_inv in Hi. destruct Hi as [Hi1 Hi2]. fold cl_occ in Hi2.
-        rewrite P_case. pose proof Q_eq as HQ.
+        rewrite P_case. pose proof Q_eq as HQ. pose proof L_ge as HL2.
         assert (Hocc : forall cont1, cok cont1 -> forall st0 cls' st1, clauses_with (fun b => wc' b) cont1 cls st0 = Ok (cls', st1) ->
                   cok (CXCase CCns cls' (compile_ty sty0))).
         { intros c1 Hc1 sta l stb Hl. apply (cok_sub _ c1); [exact I | exact Hc1|]. intros bb Hb. apply fvt_xcase in Hb.
